@@ -21,8 +21,8 @@ CONSTANTS Base,        \* the synced base tree
           Gaps,        \* schedule tokens allowed between operations
           Filter,      \* "all" | "disjoint" (non-conflicting histories only) | "conflict" (conflicting only)
           MaxOps
-VARIABLES h, nops
-gvars == <<tr, written, killed, dropped, merged, expect, exOK, chg, anc, origin, win, tags, h, nops>>
+VARIABLES h, nops, down      \* down: the engine is stopped (C06: operations made while down are 'offline')
+gvars == <<tr, written, killed, dropped, merged, expect, exOK, chg, anc, origin, win, tags, h, nops, down>>
 
 FreshCid == 20 + nops
 
@@ -46,13 +46,23 @@ GapToks(s, g) ==
     [] g = "IS"  -> << <<"EL", 0>>, <<"ER", 0>>, <<"S">> >>
     [] g = "ISS" -> << <<"EL", 0>>, <<"ER", 0>>, <<"S">>, <<"S">>, <<"EL", 0>>, <<"ER", 0>> >>
     [] g = "SI"  -> << <<"S">>, <<IF s = 1 THEN "ER" ELSE "EL", 0>>, <<"S">> >>
+    [] g = "IT1S" -> << <<"EL", 0>>, <<"ER", 0>>, <<"T", 1>>, <<"S">> >>       \* one half-ageing unit later: too early
+    [] g = "IT2S" -> << <<"EL", 0>>, <<"ER", 0>>, <<"T", 2>>, <<"S">> >>       \* exactly aged
+    [] g = "IT3S" -> << <<"EL", 0>>, <<"ER", 0>>, <<"T", 3>>, <<"S">>, <<"S">> >>
+    [] g = "TI"   -> << <<"T", 1>>, <<"EL", 0>>, <<"ER", 0>> >>
+    [] g = "X"    -> << <<"X">> >>                                   \* stop the engine at this step boundary
+    [] g = "R"    -> << <<"R", "intact">> >>                         \* start a new engine over the same storage
+    [] g = "Rrm"  -> << <<"R", "cursorRemoved">> >>
+    [] g = "Rrej" -> << <<"R", "cursorRejected">> >>
+    [] g = "ISX"  -> << <<"EL", 0>>, <<"ER", 0>>, <<"S">>, <<"X">> >>   \* stop mid-sync with pending entries
+    [] g = "IX"   -> << <<"EL", 0>>, <<"ER", 0>>, <<"X">> >>
     [] g = "Q"   -> << <<"Q">> >>
 
 GenInit ==
   /\ tr = <<Base, Base>> /\ expect = Base /\ exOK = TRUE
   /\ written = Cells(Base) \ {DIR} /\ killed = {} /\ dropped = {} /\ merged = {}
   /\ chg = <<{}, {}>> /\ anc = <<{}, {}>> /\ origin = 0 /\ win = EmptyWin /\ tags = {}
-  /\ h = <<>> /\ nops = 0
+  /\ h = <<>> /\ nops = 0 /\ down = FALSE
 
 GenUser(s, op, g) ==
   /\ nops < MaxOps
@@ -60,10 +70,13 @@ GenUser(s, op, g) ==
          last == nops + 1 = MaxOps
      IN /\ UserEffect(s, op, t2)
         /\ IF last
-             THEN /\ g = "N"
+             THEN /\ g \in (IF down THEN {"R", "Rrm", "Rrej"} \cap Gaps ELSE {"N"})
                   /\ tr' = [tr EXCEPT ![s] = t2]
-                  /\ h' = h \o <<OpTok(s, op)>> \o << <<"Q">>, <<"AQ">> >>
+                  /\ down' = FALSE
+                  /\ h' = h \o <<OpTok(s, op)>> \o GapToks(s, g) \o << <<"Q">>, <<"AQ">> >>
              ELSE /\ h' = h \o <<OpTok(s, op)>> \o GapToks(s, g)
+                  /\ IF down THEN g \in {"N", "R", "Rrm", "Rrej"} ELSE g \notin {"R", "Rrm", "Rrej"}
+                  /\ down' = IF g \in {"X", "ISX", "IX"} THEN TRUE ELSE IF g \in {"R", "Rrm", "Rrej"} THEN FALSE ELSE down
                   /\ IF g = "Q"
                        THEN /\ exOK'                       \* only non-conflicting histories may be synced mid-way
                             /\ tr' = <<expect', expect'>>
@@ -88,6 +101,10 @@ DPStd == {R(<<3>>), R(<<4>>), R(<<3, 4>>)}
 \* a small universe in which the two sides collide often (conflict families)
 FPConf == {R(<<1>>), R(<<2>>), R(<<3, 2>>)}
 DPConf == {R(<<3>>)}
+\* C12: objects outside the roots - another folder (11), the prefix sibling <root>X (12), an account-root file (6)
+BaseOut == BaseStd @@ (<<11>> :> DIR) @@ (<<11, 1>> :> 7) @@ (<<12>> :> DIR) @@ (<<12, 2>> :> 8) @@ (<<6>> :> 9)
+FPOut == {R(<<1>>), R(<<2>>), R(<<3, 2>>), <<11, 1>>, <<11, 2>>, <<12, 2>>, <<12, 1>>, <<6>>}
+DPOut == {R(<<3>>), R(<<4>>), <<11, 3>>, <<12, 3>>, <<4>>}
 FPMix == {R(<<1>>), R(<<2>>), R(<<3>>), R(<<3, 1>>), R(<<2, 1>>)}
 DPMix == {R(<<2>>), R(<<3>>)}
 =============================================================================
